@@ -1,5 +1,5 @@
 //@ unit lcstream
-//@ rlimit 400
+//@ rlimit 800
 // C05 (forwarding clause, composition), C06 (publication before delivery), C07 (counts), C03 (internal assert):
 // parse_lifecycles_buffered_from_stream as a whole, against models of HashMap / VecDeque / HashSet / evmap / the channels.
 #![allow(unused_imports, dead_code, unused_variables, unused_mut, non_upper_case_globals, unused_assignments)]
